@@ -60,7 +60,7 @@ def stepAnn (s : St) (fam : String) (a : List String) (out : List String) : St Ã
     let pid := pidS
     let key : Key := (hexNat ip, nat! port)
     let st := statusOf (event = "stopped") (int! left)
-    let n := if s.cfg.http then clampHttp s.cfg.maxPeers (if numwant = "-" then none else some (nat! numwant))
+    let n := if s.cfg.http then clampHttp s.cfg.maxPeers (if numwant = "-" âˆ¨ numwant.startsWith "-" then none else some (nat! numwant))
              else clampUdp s.cfg.maxPeers (if numwant = "-" then 0 else int! numwant)
     let m := if fam = "4" then s.m4 else s.m6
     let pm := (m.get h).getD (.small [])
@@ -100,7 +100,9 @@ def stepAnn (s : St) (fam : String) (a : List String) (out : List String) : St Ã
           ++ (if o.removed.isSome then ["re-announce"] else [])
           ++ (match st with | .stopped => ["stopped"] | .seeding => ["seeding"] | .leeching => ["leeching"])
           ++ (if pairs.length > 1 then ["offset-choices>1"] else [])
-      if !specOk then
+      if out.contains "WRONGFAMILY" then
+        (s', .specfail "peers of the other address family in the reply", notes)
+      else if !specOk then
         (s', .specfail s!"ref=({view.seeders},{view.leechers},{showKeys view.candidates}) n={n}", notes)
       else if !(countsOk && peersMatch) then
         (s', .mismatch s!"model=({o.seeders},{o.leechers},{showKeys o.peers}) offsets={pairs.length}", notes)
@@ -110,11 +112,6 @@ def stepAnn (s : St) (fam : String) (a : List String) (out : List String) : St Ã
 def showCounts (l : List (Nat Ã— Nat)) : String :=
   if l.isEmpty then "-" else String.intercalate "," (l.map (fun (a, b) => s!"{a}:{b}"))
 
-def insertSorted (k : Nat) (v : Nat Ã— Nat) : List (Nat Ã— (Nat Ã— Nat)) â†’ List (Nat Ã— (Nat Ã— Nat))
-  | [] => [(k, v)]
-  | (k', v') :: t => if k = k' then (k, v) :: t else if k < k' then (k, v) :: (k', v') :: t
-                     else (k', v') :: insertSorted k v t
-
 def stepScr (s : St) (fam : String) (a : List String) (out : List String) : St Ã— Verdict Ã— List String :=
   match a, out with
   | [hs], [impl] =>
@@ -123,9 +120,9 @@ def stepScr (s : St) (fam : String) (a : List String) (out : List String) : St Ã
     let render (l : List (Nat Ã— Nat Ã— Nat)) : String :=
       if s.cfg.http then
         -- the HTTP reply is a BTreeMap: sorted by hash, repeated hashes once
-        let sorted := l.foldl (fun acc (k, v) => insertSorted k v acc) []
+        let sorted := httpScrapeFiles l
         if sorted.isEmpty then "-" else
-          String.intercalate "," (sorted.map (fun (k, (a, b)) => s!"{k}={a}:{b}"))
+          String.intercalate "," (sorted.map (fun (k, (a, b)) => s!"{natHex 40 k}={a}:{b}"))
       else showCounts (l.map (Â·.2))
     let notes := ["scr"] ++ (if hashes.length > s.cfg.maxScrape then ["scrape-truncated"] else [])
     match step s.scfg s.ts (.scr v6 hashes), refStep s.scfg s.rt (.scr v6 hashes) with
